@@ -44,15 +44,17 @@ class Design:
     raise SimError(f"struct {t[1]} has no field {name}")
 
 
-def is_signed(e):
-  """signedness of an expression from its operands (IEEE 1800-2017 11.8.1); variables of the emitted text are all unsigned"""
+def is_signed(e, signed_ids=()):
+  """signedness of an expression from its operands (IEEE 1800-2017 11.8.1); logic variables are unsigned, `integer` variables
+  (signed_ids: the module-level loop variables of the Yosys backend) are signed"""
   k = e[0]
   if k == "signed": return True
-  if k == "cast": return is_signed(e[2])
+  if k == "id": return e[1] in signed_ids
+  if k == "cast": return is_signed(e[2], signed_ids)
   if k == "num": return e[1] is None                       # an unsized decimal literal is signed
-  if k == "un" and e[1] in ("~", "-", "+"): return is_signed(e[2])
-  if k == "tern": return is_signed(e[2]) and is_signed(e[3])
-  if k == "bin" and e[1] in ("+", "-", "*", "/", "%", "&", "|", "^"): return is_signed(e[2]) and is_signed(e[3])
+  if k == "un" and e[1] in ("~", "-", "+"): return is_signed(e[2], signed_ids)
+  if k == "tern": return is_signed(e[2], signed_ids) and is_signed(e[3], signed_ids)
+  if k == "bin" and e[1] in ("+", "-", "*", "/", "%", "&", "|", "^"): return is_signed(e[2], signed_ids) and is_signed(e[3], signed_ids)
   return False
 
 
@@ -72,6 +74,7 @@ class Inst:
     self.dirty = False
     for d_, t, n, dims in m["ports"]: self._decl(n, t, dims, False)
     for t, n, dims, isint in m["decls"]: self._decl(n, t, dims, isint)
+    self.signed_ids = {n for t, n, dims, isint in m["decls"] if isint}
     self.params = {}
     for t, n, dims, e in m["params"]:
       self._decl(n, t, dims, False)
@@ -283,7 +286,8 @@ class Inst:
       if op in ("==", "!=", "<", "<=", ">", ">="):
         cw = max(self.size(e[2], env), self.size(e[3], env))
         a, b = self.ev(e[2], cw, env), self.ev(e[3], cw, env)
-        if is_signed(e[2]) and is_signed(e[3]):
+        sids = self.signed_ids - set(env)
+        if is_signed(e[2], sids) and is_signed(e[3], sids):
           # IEEE 1800-2017 11.8.1: the comparison is signed when both operands are signed; a size cast passes the signedness
           # of its operand through (6.24.1), so N'($signed(x)) is a signed operand
           a = _to_signed(self.ev(e[2], None, env), self.size(e[2], env))
